@@ -192,7 +192,7 @@ func (r *run) callCache(ctx context.Context, cancel context.CancelFunc, form str
 		cmd := cl.B().Mget().Key(keys...).Cache()
 		argv := canonArgv(cmd.Commands())
 		kind := "mget"
-		if r.cfg.RESP2 {
+		if r.cfg.noCache() {
 			kind = "do" // DisableCache: DoCache falls back to Do
 		}
 		c = r.beginReserved(rs, kind, 0, cancel, []string{r.cmdID(rs.n, 1)}, [][]string{argv})
@@ -216,7 +216,7 @@ func (r *run) callCache(ctx context.Context, cancel context.CancelFunc, form str
 			wants = append(wants, want(i+1))
 		}
 		kind := form
-		if r.cfg.RESP2 {
+		if r.cfg.noCache() {
 			kind = "multi"
 			if nkeys == 1 {
 				kind = "do"
